@@ -221,16 +221,19 @@ u_cfg(uint64_t idx, void *arg)
     vh_rng r;
     vh_unit_rng(&r, "cfg", idx);
     ncase = 0;
-    for (int pl = 0; pl < 4; pl++)
+    for (int pl = 0; pl < PS_NPLACES; pl++)
         for (int ck = 0; ck < NCK; ck++) {
+            const uint32_t place = ps_place_of(pl, ck, size);
+            if (pl == 4)
+                VH_COUNT("placement with the last octet at the top of the address space");
             /* aux: none, then sizes 0 (degenerate), 1..size+1 */
-            one_config(size, ps_places[pl], ck, 0, 0, &r, vh_tier || size <= 9);
+            one_config(size, place, ck, 0, 0, &r, vh_tier || size <= 9);
             for (size_t a = 0; a <= size + 1; a++) {
                 if (!vh_tier && size > 9 && !(a <= 3 || a + 2 >= size || vh_chance(&r, 1, 6)))
                     continue;
                 if (a == 0)
                     VH_COUNT("auxiliary buffer non-NULL with size 0");
-                one_config(size, ps_places[pl], ck, 1, a, &r, (vh_tier && size <= 24) || size <= 6);
+                one_config(size, place, ck, 1, a, &r, (vh_tier && size <= 24) || size <= 6);
             }
         }
     *vh_ncases += ncase;
@@ -256,7 +259,8 @@ harness_run(void)
     static const char *req[] = { "reset checked", "full store checked", "partial store + fetch checked",
                                  "out-of-range part access", "out-of-range part access whose offset+length wraps",
                                  "alteration detected by the checksum",
-                                 "auxiliary buffer non-NULL with size 0", "data size 1", "data size 40" };
+                                 "auxiliary buffer non-NULL with size 0", "data size 1", "data size 40",
+                                 "placement with the last octet at the top of the address space" };
     for (size_t i = 0; i < sizeof req / sizeof req[0]; i++)
         vh_require(req[i]);
 }
